@@ -9,7 +9,7 @@ pid, n = sys.argv[1], sys.argv[2]
 tier = sys.argv[sys.argv.index("--tier") + 1] if "--tier" in sys.argv else "quick"
 props = sys.argv[sys.argv.index("--props") + 1].split(",") if "--props" in sys.argv else [pid]
 # seeds 1,2 come from the first round (/tmp/seed_<id>), 3,4 from the second (/tmp/seedB_<id>/{patch1,patch2})
-src = {0: "/tmp/seed_%s", 1: "/tmp/seedB_%s", 2: "/tmp/seedC_%s", 3: "/tmp/seedD_%s", 4: "/tmp/seedE_%s"}[(int(n) - 1) // 2] % pid
+src = {0: "/tmp/seed_%s", 1: "/tmp/seedB_%s", 2: "/tmp/seedC_%s", 3: "/tmp/seedD_%s", 4: "/tmp/seedE_%s", 5: "/tmp/seedF_%s"}[(int(n) - 1) // 2] % pid
 fn = str((int(n) - 1) % 2 + 1)
 patch, demo, notes = ["%s/%s%s%s" % (src, a, fn, b) for a, b in (("patch", ".diff"), ("demo", ".py"), ("notes", ".md"))]
 saved = "/verif/seeded/%s-%s" % (pid, n)
